@@ -11,6 +11,7 @@ import CalVerif.Spec.XlsbEnc
 
     `enc <item>…`              → hex of the framed records (the sheet part when the items are a whole part)
     `dec <ctx> <hex>`          → `decodeSheet` on the bytes: canonical range | `err:<class>` | `panic`
+    `area <ctx> <hex>`         → number of cells of the dense range `dec` would build | `-`
     `spec <ctx> <item>…`       → canonical range of `fromSparse (specCells items)` (the data items only)
     `recs <hex>`               → `ok <id>:<hex> …` | `io <id>:<hex> …` (records read before the part broke off)
     `wstr <hex>`               → `ok <units> <str_len>` | `err:WideStr` | `panic`
@@ -136,6 +137,24 @@ def sweepLen (lo hi w step : Nat) : String := Id.run do
     n := n + step
   return s!"{hb.toNat} {hd.toNat}"
 
+/-- bounding-box area `Range::from_sparse` would allocate for the cells the model reads from a sheet part
+    (`-` when the model does not get that far). Only used by the harness to keep every case below 2^21 cells
+    (ledger D37) before the real reader or `dec` builds the dense range. -/
+def areaOf (ctx : Ctx) (bs : Bytes) : String :=
+  match newReader bs with
+  | .ok (_, rest) =>
+    match readCells ctx (bs.length + 1) rest 0 with
+    | .ok cells =>
+      match cells with
+      | [] => "0"
+      | c0 :: _ =>
+        let last := (cells.getLast?.getD c0).1
+        let cmin := cells.foldl (fun m c => min m c.2.1) c0.2.1
+        let cmax := cells.foldl (fun m c => max m c.2.1) c0.2.1
+        toString ((last - c0.1 + 1) * (cmax - cmin + 1))
+    | _ => "-"
+  | _ => "-"
+
 def handle (line : String) : String :=
   match words line with
   | "enc" :: items =>
@@ -145,6 +164,10 @@ def handle (line : String) : String :=
   | ["dec", fmts, y, strs, hex] =>
     match parseCtx fmts y strs, bytesOfHex hex with
     | some ctx, some bs => showRes showRange (decodeSheet ctx bs)
+    | _, _ => "bad-args"
+  | ["area", fmts, y, strs, hex] =>
+    match parseCtx fmts y strs, bytesOfHex hex with
+    | some ctx, some bs => areaOf ctx bs
     | _, _ => "bad-args"
   | "spec" :: fmts :: y :: strs :: items =>
     match parseCtx fmts y strs, items.mapM parseItem with
